@@ -93,6 +93,8 @@ def run(ctx: common.Ctx):
     judge(ctx, res, 'nested-in-splicing')
     cv_checks.judge_checkpoints(ctx, res, 'extra')
     s5 = dict(ctx.coverage['worker_stats'])
+    # binding node-collapsing parameters on indel-rich clusters: nothing may appear
+    cv_checks.collapse_stream(ctx, ctx.n(240, 3000), 'gained')
     for kind, n in (('fusion', ctx.n(90, 1500)), ('circ', ctx.n(90, 1500)), ('combo', ctx.n(70, 1200))):
         bres = cv_checks.explore_backbone(ctx, kind, n, dict(exception=None))
         for r in bres:
